@@ -331,19 +331,57 @@ pub fn utf8(g: &mut Gen, max_bytes: usize) -> String {
     }
     s
 }
+/// Candidates just outside a validating constructor's bound (in bytes, in characters, multi-byte text):
+/// the constructor is expected to refuse them; if it accepts one, the value is used, so that the
+/// schema validator sees what the library lets through.
+fn oversize_text(g: &mut Gen, max_bytes: usize) -> String {
+    match g.t.choose(4) {
+        0 => "a".repeat(max_bytes + 1),
+        1 => "é".repeat(max_bytes / 2 + 1),
+        2 => "→".repeat(max_bytes / 3 + 1),
+        _ => format!("{}é", "a".repeat(max_bytes - 1)),
+    }
+}
 pub fn url(g: &mut Gen) -> URL {
+    if g.t.chance(10) {
+        if let Ok(u) = URL::new(oversize_text(g, 128)) {
+            return u;
+        }
+    }
     URL::new(ascii(g, 128)).expect("url len")
 }
 pub fn dns_a(g: &mut Gen) -> DNSRecordAorAAAA {
+    if g.t.chance(10) {
+        if let Ok(u) = DNSRecordAorAAAA::new(oversize_text(g, 128)) {
+            return u;
+        }
+    }
     DNSRecordAorAAAA::new(ascii(g, 128)).expect("dns len")
 }
 pub fn dns_srv(g: &mut Gen) -> DNSRecordSRV {
+    if g.t.chance(10) {
+        if let Ok(u) = DNSRecordSRV::new(oversize_text(g, 128)) {
+            return u;
+        }
+    }
     DNSRecordSRV::new(ascii(g, 128)).expect("dns len")
 }
 pub fn ipv4(g: &mut Gen) -> Ipv4 {
+    if g.t.chance(10) {
+        let n = [0usize, 3, 5, 16][g.t.choose(4)];
+        if let Ok(i) = Ipv4::new(g.t.bytes(n)) {
+            return i;
+        }
+    }
     Ipv4::new(g.t.bytes(4)).expect("ipv4 len")
 }
 pub fn ipv6(g: &mut Gen) -> Ipv6 {
+    if g.t.chance(10) {
+        let n = [0usize, 4, 15, 17][g.t.choose(4)];
+        if let Ok(i) = Ipv6::new(g.t.bytes(n)) {
+            return i;
+        }
+    }
     Ipv6::new(g.t.bytes(16)).expect("ipv6 len")
 }
 pub fn anchor(g: &mut Gen) -> Anchor {
@@ -354,6 +392,12 @@ pub fn anchor(g: &mut Gen) -> Anchor {
 // assets, values
 
 pub fn asset_name(g: &mut Gen) -> AssetName {
+    if g.t.chance(6) {
+        let n = [33usize, 64][g.t.choose(2)];
+        if let Ok(a) = AssetName::new(g.t.bytes(n)) {
+            return a;
+        }
+    }
     let n = [0usize, 1, 2, 31, 32, 4][g.t.choose(6)];
     let b = if g.t.chance(180) { g.t.pooled(5, n, 20) } else { g.t.bytes(n) };
     AssetName::new(b).expect("asset name len")
@@ -607,15 +651,31 @@ pub fn metadatum(g: &mut Gen) -> TransactionMetadatum {
         1 => TransactionMetadatum::new_list(&metadata_list(g)),
         2 => TransactionMetadatum::new_int(&int(g)),
         3 => {
-            let n = [0usize, 1, 63, 64, 10][g.t.choose(5)];
-            TransactionMetadatum::new_bytes(g.t.bytes(n)).expect("md bytes len")
+            let n = [0usize, 1, 63, 64, 10, 65][g.t.choose(6)];
+            match TransactionMetadatum::new_bytes(g.t.bytes(n)) {
+                Ok(m) => m,
+                Err(_) => TransactionMetadatum::new_bytes(g.t.bytes(64)).expect("md bytes len"),
+            }
         }
-        _ => TransactionMetadatum::new_text(utf8(g, 64)).expect("md text len"),
+        _ => {
+            if g.t.chance(20) {
+                if let Ok(m) = TransactionMetadatum::new_text(oversize_text(g, 64)) {
+                    return_early(g, leaf);
+                    return m;
+                }
+            }
+            TransactionMetadatum::new_text(utf8(g, 64)).expect("md text len")
+        }
     };
     if !leaf {
         g.ascend();
     }
     r
+}
+fn return_early(g: &mut Gen, leaf: bool) {
+    if !leaf {
+        g.ascend();
+    }
 }
 pub fn metadata_map(g: &mut Gen) -> MetadataMap {
     let mut m = MetadataMap::new();
